@@ -18,9 +18,59 @@ def _has_strings(fs):
     return "String" in txt
 
 
+def _decl_names(t, acc, seen):
+    stack = [t]
+    while stack:
+        x = stack.pop()
+        i = x.get_id()
+        if i in seen:
+            continue
+        seen.add(i)
+        if z3.is_quantifier(x):
+            stack.append(x.body())
+        elif z3.is_app(x):
+            if x.decl().kind() == z3.Z3_OP_UNINTERPRETED and x.num_args() > 0:
+                acc.add(x.decl().name())
+            stack.extend(x.children())
+
+
+def _psum_definition_of(a):
+    """name f of the prefix-sum function if `a` is one of the two defining axioms of f (f(..,0) == 0 and
+    k >= 1 -> f(..,k) == f(..,k-1) + el(..,k-1), possibly under a quantifier), else None"""
+    names = set()
+    _decl_names(a, names, set())
+    ps = [n for n in names if n.endswith(".psum")]
+    if len(ps) != 1 or not names <= {ps[0], ps[0][:-5] + ".el"}:
+        return None
+    body = a.body() if z3.is_quantifier(a) else a
+    if z3.is_implies(body):
+        body = body.arg(1)
+    if not z3.is_eq(body):
+        return None
+    return ps[0]
+
+
+def drop_unused_definitions(assumptions, goal):
+    """The prefix-sum functions are defined by recursion over the element function (a conservative extension): when a
+    prefix-sum function occurs nowhere but in its own two defining axioms, these can be dropped without changing
+    satisfiability — any model of the rest extends to one of the definition. Quantified definitions that nothing uses are
+    what makes z3 answer `unknown (incomplete quantifiers)` on otherwise ground, satisfiable VCs."""
+    defs, used = {}, set()
+    for k, a in enumerate(assumptions):
+        f = _psum_definition_of(a)
+        if f is not None:
+            defs.setdefault(f, []).append(k)
+        else:
+            _decl_names(a, used, set())
+    _decl_names(goal, used, set())
+    drop = {k for f, ks in defs.items() if f not in used for k in ks}
+    return [a for k, a in enumerate(assumptions) if k not in drop] if drop else assumptions
+
+
 def prove(assumptions, goal, timeout_ms=None, want_model=True, second_opinion=True, retries=True):
     """Return dict(status=discharged|refuted|undecided, backend, time_s, model, reason)."""
     t0 = time.time()
+    assumptions = drop_unused_definitions(list(assumptions), goal)
     timeout_ms = timeout_ms or Z3_TIMEOUT_MS
     # fast path: value propagation + equation solving + polynomial normal form often closes (in)equational VCs
     try:
@@ -48,6 +98,11 @@ def prove(assumptions, goal, timeout_ms=None, want_model=True, second_opinion=Tr
         m = s.model()
         return dict(status="refuted", backend="z3", time_s=dt, model=m, model_text=_model_text(m))
     reason = s.reason_unknown()
+    # a short cvc5 attempt first: quantified VCs with division / to_int that z3 leaves open for minutes are often closed by
+    # cvc5 in milliseconds (only `unsat` is used; a cvc5 `sat` has no model we could replay)
+    smt2 = s.to_smt2()
+    if _cvc5(smt2, tlimit_s=4) == "unsat":
+        return dict(status="discharged", backend="cvc5", time_s=time.time() - t0)
     # retry with other seeds / the nlsat tactic: unknown answers of z3 on small nonlinear VCs are often unstable
     for attempt, (tac, seed) in enumerate([(None, 7), ("qfnra-nlsat", 0), (None, 42)] if retries else []):
         try:
@@ -72,7 +127,7 @@ def prove(assumptions, goal, timeout_ms=None, want_model=True, second_opinion=Tr
     if not second_opinion:
         return dict(status="undecided", backend="z3", time_s=dt, reason=f"z3: {reason}")
     # second opinion
-    r2 = _cvc5(s.to_smt2())
+    r2 = _cvc5(smt2)
     dt = time.time() - t0
     if r2 == "unsat":
         return dict(status="discharged", backend="cvc5", time_s=dt)
@@ -89,7 +144,7 @@ def _model_text(m):
         return f"<model unavailable: {e}>"
 
 
-def _cvc5(smt2_text):
+def _cvc5(smt2_text, tlimit_s=None):
     exe = "/usr/bin/cvc5"
     if not os.path.exists(exe):
         return "unavailable"
@@ -97,8 +152,9 @@ def _cvc5(smt2_text):
         f.write("(set-logic ALL)\n" + smt2_text)
         path = f.name
     try:
-        p = subprocess.run([exe, "--strings-exp", f"--tlimit={CVC5_TIMEOUT_S * 1000}", path],
-                           capture_output=True, text=True, timeout=CVC5_TIMEOUT_S + 5)
+        tl = tlimit_s or CVC5_TIMEOUT_S
+        p = subprocess.run([exe, "--strings-exp", f"--tlimit={tl * 1000}", path],
+                           capture_output=True, text=True, timeout=tl + 5)
         out = (p.stdout or "").strip().splitlines()
         return out[0] if out else f"no output ({p.stderr.strip()[:100]})"
     except subprocess.TimeoutExpired:
